@@ -347,6 +347,10 @@ let judge_queue (w : which) (_euis : n list) (steps : step list) : string =
           (* among devices sharing address and network key, prefer the one whose uplink was accepted *)
           let pref = List.filter (fun d -> List.mem d.x_eui accepted) !prev @ List.filter (fun d -> not (List.mem d.x_eui accepted)) !prev in
           let owners = List.map (fun raw -> (raw, owner_of pref raw)) downs in
+          (* C02, conversely: what the library encodes follows the specification - a conformant device holding
+             the keys of some registered device accepts it (header layout, direction bit, key choice, keystream, MIC) *)
+          if w = J02 then
+            List.iter (fun (_, o) -> if o = None then bad "emitted-downlink-not-readable-by-a-conformant-device") owners;
           if w = J06 || w = J09 || w = J08 then
             List.iter (fun (_, o) -> match o with
                 | None -> bad "downlink-verifies-under-no-device-key"
